@@ -31,6 +31,7 @@ NEUTRAL_METHODS = {"open", "exists", "is_file", "is_dir", "unlink", "touch", "mk
 NEUTRAL_FUNCS_PREFIX = ("logging.", "log.", "logger.", "warnings.")
 NEUTRAL_FUNCS = {"os.replace", "os.rename", "os.unlink", "os.remove", "os.path.exists", "os.stat", "os.chmod", "os.kill", "os.close", "shutil.move", "shutil.rmtree", "open", "io.open", "os.open", "os.fsync", "isinstance", "len", "bool", "click.echo_via_pager", "os.makedirs", "os.mkdir"}
 DERIVE_FUNCS = {"str", "int", "float", "repr", "format", "bytes", "tuple", "list", "Path", "pathlib.Path", "PurePath", "os.path.join", "os.fspath", "os.path.dirname", "os.path.basename", "abs", "hex", "oct", "round", "min", "max", "sorted", "dict", "set", "frozenset", "hash", "divmod", "sum"}
+PURE_BUILTINS = {"id", "hash", "len", "str", "int", "float", "repr", "isinstance", "issubclass", "type", "bool", "tuple", "list", "dict", "set", "frozenset", "sorted", "min", "max", "sum", "abs", "any", "all", "enumerate", "zip", "range", "reversed", "getattr", "hasattr", "format", "bytes", "ord", "chr", "round", "divmod", "iter", "next", "map", "filter"}
 SINK_METHODS = {"write", "writelines", "write_text", "write_bytes", "writerow", "writerows", "send", "sendall"}
 SINK_FUNCS = {"print", "click.echo", "yaml.dump", "yaml.safe_dump", "json.dump", "json.dumps", "pickle.dump", "sys.stdout.write", "sys.stderr.write"}
 
@@ -80,7 +81,11 @@ def track(repo: Repo, f: Func | None, source: ast.AST, module=None, max_places: 
             else:
                 out.escapes.append((f"stored into '{norm(t)[:50]}'", loc(fn, node)))
         elif isinstance(t, ast.Attribute):
-            out.escapes.append((f"stored into object state '{norm(t)[:50]}'", loc(fn, node)))
+            owner = repo.infer_class(t.value, fn) if fn is not None else None
+            if owner is None:
+                out.escapes.append((f"stored into object state '{norm(t)[:50]}' of an object whose class is not known", loc(fn, node)))
+            else:
+                push(("field", owner.name, t.attr))
         else:
             out.escapes.append((f"stored into '{norm(t)[:50]}'", loc(fn, node)))
 
@@ -101,6 +106,8 @@ def track(repo: Repo, f: Func | None, source: ast.AST, module=None, max_places: 
                     elif isinstance(n, ast.Call):
                         d = dotted(n.func) or ""
                         if d.startswith(NEUTRAL_FUNCS_PREFIX) or d in NEUTRAL_FUNCS or d in DERIVE_FUNCS:
+                            continue
+                        if isinstance(n.func, ast.Name) and n.func.id in PURE_BUILTINS:
                             continue
                         if isinstance(n.func, ast.Attribute) and n.func.attr in (NEUTRAL_METHODS | DERIVE_METHODS):
                             continue
@@ -190,6 +197,20 @@ def track(repo: Repo, f: Func | None, source: ast.AST, module=None, max_places: 
                         targets, _, _ = repo.resolve_call(par, fn)
                     except Exception:
                         targets = []
+                    if not targets:
+                        try:
+                            tc = repo.resolve_callee_static(par, fn)
+                        except Exception:
+                            tc = None
+                        from .model import Class as _Class
+
+                        if isinstance(tc, _Class):
+                            ini = repo.find_method(tc, "__init__")
+                            if ini is not None:
+                                targets = [ini]
+                            else:
+                                out.neutral.append(f"{tc.name}() without __init__")
+                                return
                 if targets:
                     from .util import arg_for_param
 
@@ -197,10 +218,11 @@ def track(repo: Repo, f: Func | None, source: ast.AST, module=None, max_places: 
                     for tg in targets:
                         for pn in tg.params():
                             try:
-                                a = arg_for_param(par, tg, pn)
+                                a = arg_for_param(par, tg, pn, bound_self=True) if tg.node.name == "__init__" and not (isinstance(par.func, ast.Attribute) and par.func.attr == "__init__") else arg_for_param(par, tg, pn)
                             except Exception:
                                 a = None
-                            if a is not None and (a is cur or any(x is cur for x in ast.walk(a))):
+                            cur_v = cur.value if isinstance(cur, ast.keyword) else cur
+                            if a is not None and (a is cur_v or any(x is cur_v for x in ast.walk(a))):
                                 push(("local", tg.qualname, pn))
                                 hit = True
                     if hit:
@@ -302,6 +324,35 @@ def track(repo: Repo, f: Func | None, source: ast.AST, module=None, max_places: 
             for m2 in repo.modules.values():
                 if m2 is not m and m2.imports.get(nm) == f"{m.name}.{nm}":
                     out.escapes.append((f"global '{nm}' is imported by {m2.name}", m2.relpath))
+        elif place[0] == "field":
+            cname, attr = place[1], place[2]
+            C = repo.classes.get(cname) or next((c for c in repo.classes.values() if c.name == cname), None)
+            if C is None:
+                out.escapes.append((f"class {cname} not found", ""))
+                continue
+            family = set(repo.mro(C)) | set(repo.all_subclasses(C))
+            # which classes of the package have a field / property of that name at all?
+            definers = set()
+            for g in repo.functions.values():
+                if g.cls is None:
+                    continue
+                if g.name == attr and g.is_property:
+                    definers.add(g.cls)
+                for n in walk_shallow(g.node):
+                    if isinstance(n, ast.Attribute) and n.attr == attr and isinstance(n.ctx, ast.Store) and isinstance(n.value, ast.Name) and n.value.id == "self":
+                        definers.add(g.cls)
+            unambiguous = definers <= family and attr not in DERIVE_ATTRS
+            for g in repo.functions.values():
+                for n in walk_shallow(g.node):
+                    if isinstance(n, ast.Attribute) and n.attr == attr and isinstance(n.ctx, ast.Load):
+                        k = repo.infer_class(n.value, g)
+                        if k is not None:
+                            if k in family:
+                                use(g, g.module, n)
+                        elif unambiguous:
+                            use(g, g.module, n)
+                        else:
+                            out.escapes.append((f"'.{attr}' is read from an object whose class is not known ({norm(n)[:40]}); the tainted field is {cname}.{attr}", g.loc(n)))
         elif place[0] == "return":
             fn = repo.functions.get(place[1])
             if fn is None:
